@@ -181,6 +181,15 @@ def generate(tier):
                        '    for (i, (a, ta)) in vs.iter().enumerate() {\n        for (j, (b, tb)) in vs.iter().enumerate() {\n'
                        '            r.ck((a == b) == (ta == tb), (ta == tb) as u64, &|| format!("values #{} and #{}: == gives {}, #[derive(PartialEq)] gives {}", i, j, a == b, ta == tb));\n'
                        '            r.ck((a != b) == (ta != tb), 2, &|| format!("values #{} and #{}: != gives {}", i, j, a != b));\n        }\n    }\n', zoo=ZOO_FLOAT)
+    # the same type forms with an attribute on the exotic field itself (a method that forwards to the type's own ==) and on its sibling (ignored; the twin's sibling is a unit struct)
+    cases += zoo_cases('C02|zm', 'PartialEq', 'Debug, Clone', 'Debug, Clone, PartialEq',
+                       '    for (i, (a, ta)) in vs.iter().enumerate() {\n        for (j, (b, tb)) in vs.iter().enumerate() {\n'
+                       '            r.ck((a == b) == (ta == tb), (ta == tb) as u64, &|| format!("values #{} and #{}: == gives {}, #[derive(PartialEq)] gives {}", i, j, a == b, ta == tb));\n'
+                       '            r.ck((a != b) == (ta != tb), 2, &|| format!("values #{} and #{}: != gives {}", i, j, a != b));\n        }\n    }\n', z_attr='PartialEq(method(zoo_m_eq))')
+    cases += zoo_cases('C02|zi', 'PartialEq', 'Debug, Clone', 'Debug, Clone, PartialEq',
+                       '    for (i, (a, ta)) in vs.iter().enumerate() {\n        for (j, (b, tb)) in vs.iter().enumerate() {\n'
+                       '            r.ck((a == b) == (ta == tb), (ta == tb) as u64, &|| format!("values #{} and #{}: == gives {}, #[derive(PartialEq)] gives {}", i, j, a == b, ta == tb));\n'
+                       '            r.ck((a != b) == (ta != tb), 2, &|| format!("values #{} and #{}: != gives {}", i, j, a != b));\n        }\n    }\n', ign_attr='PartialEq(ignore)')
     from .common import rawify
     for c in [x for x in cases if x.key.startswith('C02|P|s:n2|') or x.key.startswith('C02|EP|e:n2,n1|') or x.key.startswith('C02|PE|s:n3|')]:
         r_ = rawify(c)
